@@ -360,6 +360,25 @@ func berString(tag byte, name string, content []byte, text bool, m mode) list {
 		segs = append(segs, concat(berTLVmin(tag, content[:sp]), berTLVmin(tag, content[sp:])))
 		labels = append(labels, fmt.Sprintf("[%d|%d]", sp, len(content)-sp))
 	}
+	// segments that are themselves constructed (X.690 8.21.5 note: a segment of a constructed
+	// string may again be constructed): the tail, the head, and the middle of three parts
+	cons := func(indef bool, inner []byte) []byte {
+		if indef {
+			return concat([]byte{ctag, 0x80}, inner, []byte{0, 0})
+		}
+		return concat([]byte{ctag}, berLens(len(inner), false)[0].B, inner)
+	}
+	for _, sp := range splitPoints(content, text, false) {
+		a, b := berTLVmin(tag, content[:sp]), berTLVmin(tag, content[sp:])
+		segs = append(segs, concat(a, cons(false, b)), concat(cons(false, a), b), concat(cons(true, a), b), cons(false, concat(a, b)))
+		labels = append(labels, fmt.Sprintf("[%d|(%d)]", sp, len(content)-sp), fmt.Sprintf("[(%d)|%d]", sp, len(content)-sp), fmt.Sprintf("[(%d indefinite)|%d]", sp, len(content)-sp), fmt.Sprintf("[(%d|%d)]", sp, len(content)-sp))
+		if rest := content[sp:]; len(rest) >= 2 && (!text || printableASCII(rest)) {
+			b1, b2 := berTLVmin(tag, rest[:1]), berTLVmin(tag, rest[1:])
+			segs = append(segs, concat(a, cons(false, concat(b1, b2))), concat(a, cons(true, b1), b2))
+			labels = append(labels, fmt.Sprintf("[%d|(1|%d)]", sp, len(rest)-1), fmt.Sprintf("[%d|(1 indefinite)|%d]", sp, len(rest)-1))
+		}
+		break // the first split point carries the nesting forms
+	}
 	for i, s := range segs {
 		lens := berLens(len(s), m.full)
 		if i > 1 || !m.full {
